@@ -124,6 +124,28 @@ def char_cases(code):
     return out
 
 
+NUMBER_TEXTS = ["1,234.5", "1.234,5", "1 234", "1\u00a0234", "1\u202f234", "1'000", "0x1F", "#1F", "1e-5", "1E5", "12%", "−3", "-3", "+3", "1/2", ".5", "5.", "1.2.3",
+                "007", "1:30", "3!", "2nd", "1st", "x1", "10a", "IV", "xii", "½", "²", "1½", "∞", "1…", "1_000"]
+
+
+def token_cases(code):
+    """tokens of more than one character: every ASCII letter (either case) and some Greek ones mixed with digits in the ways numbers with
+    letters are written (hexadecimal, units, ordinals, variables with digits), and number spellings with signs, marks and separators -
+    the rules take such tokens apart character by character, through intermediate private-use characters of their own"""
+    out = []
+    letters = [chr(o) for o in range(ord("a"), ord("z") + 1)] + [chr(o) for o in range(ord("A"), ord("Z") + 1)] + ["α", "Γ", "π"]
+    for L in letters:
+        cl = "U" if L.isupper() else "l"
+        cl = cl if L.isascii() else "g" + cl
+        for pat, txt in ((f"d{cl}", f"1{L}"), (f"{cl}d", f"{L}1"), (f"d{cl}d", f"3{L}7"), (f"dd{cl}{cl}", f"20{L}{L}"), (f"{cl}{cl}", f"{L}{L}"), (f"d{cl}x", f"4{L}b")):
+            for kind in ("mn", "mtext", "mi"):
+                out.append((f"token:{pat}:{kind}", terms.row(terms.mi("y"), terms.mo("="), terms.T(kind, text=txt)), txt))
+    for txt in NUMBER_TEXTS:
+        for kind in ("mn", "mtext"):
+            out.append((f"token:number:{kind}", terms.row(terms.mi("y"), terms.mo("="), terms.T(kind, text=txt)), txt))
+    return out
+
+
 def undefined_cases(code):
     """characters that SOME braille code or the English speech tables define but this code does not: they are passed through by design, so
     the only claim is the statement's last one - the result is not empty"""
@@ -407,7 +429,7 @@ def main(tier):
     jobs = []
     nchar = 0
     for code in CELL + TEXT:
-        cc = char_cases(code) + undefined_cases(code)
+        cc = char_cases(code) + undefined_cases(code) + token_cases(code)
         nchar += len(cc)
         for i in range(0, len(cc), 700):
             jobs.append(("C", code, cc[i:i + 700]))
@@ -442,7 +464,7 @@ def main(tier):
     return run.finish(
         rule="(A) every key (every member of every range) of Braille/<code>/unicode.yaml and unicode-full.yaml in <mi>/<mo>/<mtext>/alone contexts and "
              "14 mathvariant values x 8 token classes, for Nemeth, UEB, CMU, Vietnam, LaTeX, ASCIIMath, plus every character another code or the English speech tables "
-             "define but this code does not, alone (claim: not empty); (B) spine terms of G (quick: depth 1 + depth 2 over a "
+             "define but this code does not, alone (claim: not empty); every ASCII letter and three Greek ones mixed with digits in 6 patterns and 33 number spellings as <mn>/<mtext>/<mi> tokens; (B) spine terms of G (quick: depth 1 + depth 2 over a "
              "12-construct core; thorough: depth 2) and the trigger terms with author ids on every element x 4 highlight styles x node id in "
              "{'', unknown, root, each of the first 14 author ids}, then node-from-braille at 0 and 500 and the requests repeated; "
              "(C) code walks in ONE session: every ordered pair A>B, every A>B>A and 12 rotations through all six codes, three expressions of "
